@@ -11,7 +11,12 @@ import (
 	"github.com/cosmos/iavl/verifcheck/vstore"
 )
 
-func bigTreeCosts(n int, order string) (checked int, fail string) {
+func bigTreeCosts(n int, order string) (checked int, fail string) { return bigTreeCostsStride(n, order, 1) }
+
+// bigTreeCostsStride: stride > 1 checks the 96 smallest and 96 largest keys / gaps (the all-left and all-right
+// paths) and every stride-th position in between (tall trees: the read-cost bounds have their smallest slack on
+// the longest paths).
+func bigTreeCostsStride(n int, order string, stride int) (checked int, fail string) {
 	st := vstore.New()
 	t := iavl.NewMutableTree(st, 0, true, iavl.NewNopLogger())
 	key := func(i int) []byte { return []byte(fmt.Sprintf("k%05d", 2*i)) }
@@ -62,6 +67,9 @@ func bigTreeCosts(n int, order string) (checked int, fail string) {
 		return st.Counts[vstore.CGet] - before
 	}
 	for i := 0; i <= n; i++ {
+		if stride > 1 && i >= 96 && i <= n-96 && i%stride != 0 {
+			continue
+		}
 		for _, k := range [][]byte{gap(i), key(i)} {
 			if i == n && string(k) == string(key(i)) {
 				continue
